@@ -181,13 +181,12 @@ Qed.
 Lemma rad50_caught_value : smem "ValueError" rad50_caught = true.
 Proof. vm_compute. reflexivity. Qed.
 
-Lemma site_rad50_char_no_crash u s : site_rad50_char u <> Crash s.
+Lemma site_rad50_char_no_crash c s : site_rad50_char c <> Crash s.
 Proof.
   unfold site_rad50_char. apply catch_no_crash; [|discriminate].
-  intros e H. destruct u as [|c [|d rest]].
+  intros e H. destruct (128 <=? c)%N.
   - inversion H; apply rad50_caught_value.
   - unfold table_index in H. apply index_of_crash in H. subst. apply rad50_caught_value.
-  - inversion H; apply rad50_caught_value.
 Qed.
 
 Lemma nmem_In c l : nmem c l = true -> In c l.
